@@ -42,6 +42,7 @@ type Stmt struct {
 	Ref    *Term
 	Set    map[string]bool
 	Note   string
+	FrameVar string // for frame obligations: the heap variable concerned
 }
 
 type Block struct {
@@ -71,6 +72,8 @@ type FuncIVL struct {
 	Obligs   []*Oblig
 	Unsupported []string
 	Assumptions map[string]bool
+	VarTypes    map[string]interface{} // variable -> go/types type (for type facts after a loop havoc)
+	WfOf        func(v *Term, typ interface{}) *Term
 }
 
 func (f *FuncIVL) newBlock(name string) *Block {
@@ -238,6 +241,7 @@ func (f *FuncIVL) fillLoopHavocs(reg *SortReg) {
 			if f.HeapVars[v] && strings.HasPrefix(f.Vars[v], "(Array Int ") {
 				var refs []*Term
 				cellwise := true
+				hasFresh := false
 				shapeKept := map[string]bool{} // resolved ref -> all stores keep the slice shape
 				scan := func(stmts []*Stmt) {
 					for _, s := range stmts {
@@ -245,6 +249,11 @@ func (f *FuncIVL) fillLoopHavocs(reg *SortReg) {
 							continue
 						}
 						if s.Kind == SAssign && s.E.Op == "store" && s.E.Args[0].Op == "var" && s.E.Args[0].Name == v {
+							if isFreshRef(s.E.Args[1], defs, ndef, 0) {
+								// an object allocated inside the loop: not below the allocation counter at loop entry
+								hasFresh = true
+								continue
+							}
 							r := resolve(s.E.Args[1], 0)
 							if r != nil {
 								refs = append(refs, r)
@@ -280,6 +289,9 @@ func (f *FuncIVL) fillLoopHavocs(reg *SortReg) {
 					scan(f.Blocks[id].Stmts)
 				}
 				scan(b.Stmts[b.Loop.HavocAt:])
+				if hasFresh {
+					cellwise = false // new objects are written in the loop: havoc the whole variable (sound)
+				}
 				if cellwise && len(refs) > 0 && len(refs) <= 6 {
 					es := arrayElemSort(f.Vars[v])
 					cur := V(v, f.Vars[v])
@@ -355,10 +367,78 @@ func (f *FuncIVL) fillLoopHavocs(reg *SortReg) {
 				}
 			}
 			hav = append(hav, &Stmt{Kind: SHavoc, Var: v, Sort: f.Vars[v], Note: "loop"})
+			if f.WfOf != nil {
+				if ty, ok := f.VarTypes[v]; ok {
+					if w := f.WfOf(V(v, f.Vars[v]), ty); w != nil {
+						hav = append(hav, &Stmt{Kind: SAssume, E: w})
+					}
+				}
+			}
 		}
 		stmts := append([]*Stmt{}, b.Stmts[:b.Loop.HavocAt]...)
 		stmts = append(stmts, hav...)
 		stmts = append(stmts, b.Stmts[b.Loop.HavocAt:]...)
 		b.Stmts = stmts
+	}
+}
+
+// isFreshRef: the reference is (a copy of) the allocation counter read by an allocation, i.e. a new object.
+func isFreshRef(t *Term, defs map[string]*Term, ndef map[string]int, depth int) bool {
+	if depth > 8 || t.Op != "var" {
+		return false
+	}
+	d, ok := defs[t.Name]
+	if !ok || ndef[t.Name] != 1 {
+		return false
+	}
+	if d.Op == "var" && d.Name == "$alloc" {
+		return true
+	}
+	return isFreshRef(d, defs, ndef, depth+1)
+}
+
+// dischargeFreshFrames: a frame obligation for heap variable F is true by construction when every write to
+// F in the function is a store at a reference that an allocation in this function produced: objects that
+// existed at entry cannot be reached by such writes.
+func (f *FuncIVL) dischargeFreshFrames() {
+	defs := map[string]*Term{}
+	ndef := map[string]int{}
+	for _, b := range f.Blocks {
+		for _, s := range b.Stmts {
+			if s.Kind == SAssign || s.Kind == SHavoc {
+				ndef[s.Var]++
+				if s.Kind == SAssign {
+					defs[s.Var] = s.E
+				}
+			}
+		}
+	}
+	freshOnly := map[string]bool{}
+	for hv := range f.HeapVars {
+		ok, any := true, false
+		for _, b := range f.Blocks {
+			for _, s := range b.Stmts {
+				if (s.Kind != SAssign && s.Kind != SHavoc) || s.Var != hv {
+					continue
+				}
+				any = true
+				if s.Kind == SAssign && s.E.Op == "store" && s.E.Args[0].Op == "var" && s.E.Args[0].Name == hv &&
+					isFreshRef(s.E.Args[1], defs, ndef, 0) {
+					continue
+				}
+				ok = false
+			}
+		}
+		if ok && any {
+			freshOnly[hv] = true
+		}
+	}
+	for _, b := range f.Blocks {
+		for _, s := range b.Stmts {
+			if s.Kind == SAssert && s.Ob != nil && s.Ob.Kind == "frame" && s.FrameVar != "" && freshOnly[s.FrameVar] {
+				s.E = tTrue
+				s.Ob.Descr += " (by construction: only objects allocated by this function are written)"
+			}
+		}
 	}
 }
